@@ -151,7 +151,7 @@ def build(variant="plain", quiet=True):
             ),
             key=lambda d: os.path.getmtime(os.path.join(BUILD_ROOT, d)),
         )
-        for d in olds[:-2]:
+        for d in olds[:-8]:
             shutil.rmtree(os.path.join(BUILD_ROOT, d), ignore_errors=True)
         return out_dir
     finally:
